@@ -5,6 +5,7 @@ import (
 	"errors"
 	"net"
 	"net/http"
+	"strconv"
 	"strings"
 
 	"github.com/fabiolb/fabio/config"
@@ -13,7 +14,9 @@ import (
 // addResponseHeaders adds/updates headers in the response
 func addResponseHeaders(w http.ResponseWriter, r *http.Request, cfg config.Proxy) error {
 	if r.TLS != nil && cfg.STSHeader.MaxAge > 0 {
-		sts := "max-age=" + i32toa(int32(cfg.STSHeader.MaxAge))
+		// MaxAge is an int: a conversion to int32 turns values above
+		// math.MaxInt32 into negative numbers
+		sts := "max-age=" + strconv.Itoa(cfg.STSHeader.MaxAge)
 		if cfg.STSHeader.Subdomains {
 			sts += "; includeSubdomains"
 		}
